@@ -12,7 +12,18 @@
 #include <sc_sort.h>
 #include <sc_statistics.h>
 #include <sc_shmem.h>
+#ifndef SMOKE_REAL_MPI
 #include <simmpi.h>
+#else
+/* the same checks under a real MPI (mpicc -DSMOKE_REAL_MPI, mpirun) */
+static int
+simmpi_current_rank (void)
+{
+  int                 r = -1;
+  MPI_Comm_rank (MPI_COMM_WORLD, &r);
+  return r;
+}
+#endif
 
 static int          nfail = 0;
 static int          quiet = 0;
@@ -20,6 +31,7 @@ static int          back_to_back = 0;   /* -b: no barrier between sc_notify call
 static int          noncontig = 0;      /* -n: also use round-robin node partitions */
 static int          warnfail = 0;       /* -w: simmpi warnings fail the run */
 static long         nwarn = 0;
+static int          exclude_type = -1;  /* -x: notify type to leave out */
 static long         nknown = 0;        /* occurrences of known libsc misbehaviour that are tolerated */
 static int          inplace = 0;        /* -i: in-place payload (libsc memcpy (NULL, p, 0) with no senders) */
 static char         where[256];
@@ -143,7 +155,7 @@ test_notify (ctx_t * c, int rank, int size, sc_MPI_Comm comm)
   int                 t, i, pass;
 
   for (t = 0; t < SC_NOTIFY_NUM_TYPES; t++) {
-    for (pass = 0; pass < 2; pass++) {
+    for (pass = 0; pass < 2 && t != exclude_type; pass++) {
       sc_notify_t        *notify = sc_notify_new (comm);
       sc_array_t         *rec = sc_array_new (sizeof (int));
       sc_array_t         *snd = sc_array_new (sizeof (int));
@@ -389,6 +401,61 @@ rank_main (int rank, int size, void *arg)
   }
 }
 
+#ifdef SMOKE_REAL_MPI
+int
+main (int argc, char **argv)
+{
+  int                 rank, size, s, nseeds = 3, opt, allfail = 0;
+  long                allknown = 0;
+  ctx_t               c;
+
+  MPI_Init (&argc, &argv);
+  MPI_Comm_rank (MPI_COMM_WORLD, &rank);
+  MPI_Comm_size (MPI_COMM_WORLD, &size);
+  c.only = -1;
+  while ((opt = getopt (argc, argv, "qiebs:o:x:")) != -1) {
+    switch (opt) {
+    case 'i':
+      inplace = 1;
+      break;
+    case 'e':
+      allow_empty = 1;
+      break;
+    case 'b':
+      back_to_back = 1;
+      break;
+    case 's':
+      nseeds = atoi (optarg);
+      break;
+    case 'o':
+      c.only = atoi (optarg);
+      break;
+    case 'x':
+      exclude_type = atoi (optarg);
+      break;
+    default:
+      break;
+    }
+  }
+  sc_init (MPI_COMM_WORLD, 0, 0, NULL, SC_LP_SILENT);
+  nprocs = size;
+  for (s = 0; s < nseeds; s++) {
+    c.P = size;
+    c.seed = 1000UL * (unsigned long) s + (unsigned long) size;
+    snprintf (where, sizeof (where), "P=%d seed=%lu", size, c.seed);
+    rank_main (rank, size, &c);
+  }
+  MPI_Allreduce (&nfail, &allfail, 1, MPI_INT, MPI_SUM, MPI_COMM_WORLD);
+  MPI_Allreduce (&nknown, &allknown, 1, MPI_LONG, MPI_SUM, MPI_COMM_WORLD);
+  if (rank == 0) {
+    printf ("libsc_smoke (real MPI): P=%d, %d seeds, %d failed checks, %ld tolerated known libsc findings\n",
+            size, nseeds, allfail, allknown);
+  }
+  sc_finalize ();
+  MPI_Finalize ();
+  return allfail ? 1 : 0;
+}
+#else
 int
 main (int argc, char **argv)
 {
@@ -399,7 +466,7 @@ main (int argc, char **argv)
   const char         *trace = NULL;
   ctx_t               c;
 
-  while ((opt = getopt (argc, argv, "qienwbP:s:a:t:o:")) != -1) {
+  while ((opt = getopt (argc, argv, "qienwbP:s:a:t:o:x:")) != -1) {
     switch (opt) {
     case 'q':
       quiet = 1;
@@ -441,6 +508,9 @@ main (int argc, char **argv)
       break;
     case 'o':
       only = atoi (optarg);
+      break;
+    case 'x':
+      exclude_type = atoi (optarg);
       break;
     default:
       return 2;
@@ -507,3 +577,4 @@ main (int argc, char **argv)
   }
   return bad ? 1 : 0;
 }
+#endif /* !SMOKE_REAL_MPI */
